@@ -247,6 +247,30 @@ class AbsInt(_Abstract):
     def __floordiv__(self, o: Any) -> "AbsInt":
         return self._bin("//", o)
 
+    def __xor__(self, o: Any) -> "AbsInt":
+        return self._bin("^", o)
+
+    def __rxor__(self, o: Any) -> "AbsInt":
+        return self._bin("^", o, True)
+
+    def __and__(self, o: Any) -> "AbsInt":
+        return self._bin("&", o)
+
+    def __rand__(self, o: Any) -> "AbsInt":
+        return self._bin("&", o, True)
+
+    def __or__(self, o: Any) -> "AbsInt":
+        return self._bin("|", o)
+
+    def __ror__(self, o: Any) -> "AbsInt":
+        return self._bin("|", o, True)
+
+    def __lshift__(self, o: Any) -> "AbsInt":
+        return self._bin("<<", o)
+
+    def __rshift__(self, o: Any) -> "AbsInt":
+        return self._bin(">>", o)
+
     def _cmp(self, op: str, o: Any) -> Any:
         oe = o.expr if isinstance(o, AbsInt) else o
         if oe == self.expr and isinstance(o, AbsInt):
